@@ -6,7 +6,16 @@ PROP = {
              "address (zero, ones, leading zero bytes/nibbles, one bit, bytes whose base64 digits are 62/63, random), each sent through "
              "every form: ToRaw / AccountIDFromRaw / ParseAccountID / tongo.ParseAddress, MarshalJSON / UnmarshalJSON, MarshalTL / "
              "UnmarshalTL, ToHuman with the 4 flag combinations x both base64 alphabets / AccountIDFromBase64Url / ParseAccountID / "
-             "ParseAddress / JSON, ToMsgAddress -> tlb.Marshal -> cell bits (+ random trailing bits) -> tlb.Unmarshal -> AccountIDFromTlb. "
+             "ParseAddress / JSON, ToMsgAddress -> tlb.Marshal -> cell bits (+ random trailing bits) -> tlb.Unmarshal -> AccountIDFromTlb, "
+             "ToMsgAddress -> MsgAddress.MarshalJSON -> MsgAddress.UnmarshalJSON -> AccountIDFromTlb (also through encoding/json, with the "
+             "TL-B bits and the JSON text compared before/after). Besides the boundary-biased sample, ALL 256 int8 workchains -128..127 "
+             "go through every one of these forms. MsgAddress JSON variants: workchains -128/-129/127/128/+5/-0/007/int32 edges/non-numeric "
+             "x 64 hex (std/var boundary), 62/63/65 hex digits, completion tags, '_' endings, upper case, missing/extra quotes, 1/2/3/4 "
+             "colon-separated parts, addr_extern Fift hex, 27 Anycast(...) spellings (uint32 edges, overflow, missing parts, signs, '_', "
+             "trailing text). Concurrency: 3 rounds (6 thorough) in the guarded child: 16 goroutines call AccountIDFromBase64Url / "
+             "ParseAccountID / UnmarshalJSON in a tight loop (4000 passes, wall-clock bounded) and all parsers incl. ParseAddress, "
+             "AccountIDFromRaw, ParseADNLAddress on valid strings next to their single-character substitutions; every result must equal "
+             "the sequential one (the model's), a crash/hang of the child is a reported outcome. "
              "Raw-form variants: short and odd hex (zero fill), empty hex, upper case, '+', leading zeros, spaces, no / two colons, 65/66 "
              "hex digits, non-hex, workchain range edges. User-friendly variants: ALL 48 x (63 + 2) single-character substitutions of "
              "sampled strings in both alphabets plus 8 non-alphabet bytes per position (every one on the implementation, a deterministic "
@@ -21,20 +30,31 @@ PROP = {
              "utils.Crc16 on lengths 0..80 and every table index. Oracles on the implementation: every round trip returns the account, "
              "formats equal an independently written reference (bitwise CRC-16/XMODEM, base64url/base32 layout), every substitution is "
              "rejected, Encode(Parse(m)) = m, match = prefix relation computed bit by bit, child/parent = prefix arithmetic, anycast = "
-             "first depth bits replaced. A class is (case kind, family / boundary bucket, outcome)."),
+             "first depth bits replaced, concurrent results = sequential results. A class is (case kind, family / boundary bucket, outcome)."),
     'explanation': ("coq/Properties/C17.v holds for all inputs of the Gallina model of ton/account.go, ton/shards.go, ton/block.go (shard "
                     "arithmetic), tlb/messages.go (MsgAddress, Anycast), liteclient/adnl.go (base32 address) and utils/crc16.go: raw, JSON "
                     "and TL round trips for all int32 workchains x all 32-byte addresses; user-friendly round trip for all int8 workchains x "
                     "4 flag combinations x both alphabets through AccountIDFromBase64Url and ParseAccountID; CRC-16 table loop = bitwise "
                     "XMODEM definition, CRC linear, hence every one of the 48 x 63 digit substitutions (and any non-alphabet byte) of every "
-                    "printed address is rejected; TL-B addr_std round trip incl. anycast, anycast rewrite = first depth bits replaced for "
+                    "printed address is rejected; TL-B addr_std round trip incl. anycast; JSON form of the TL-B address (MsgAddress "
+                    "MarshalJSON/UnmarshalJSON) gives back the same addr_std value and the same account for all int8 workchains -128..127, with "
+                    "or without anycast; anycast rewrite = first depth bits replaced for "
                     "depth 1..32; shard parse/encode for all non-zero uint64, MatchAccountID iff prefix, MatchBlockID iff one prefix is a "
                     "prefix of the other, child/parent mutual inverses for all prefix lengths, convertShardIdent/GetParents in terms of "
                     "(length, prefix); ADNL base32 round trip. coq/Properties/C17_gen.v re-checks utils.TABLE against the table computed "
-                    "from the polynomial 0x1021 and the integer/character literals of 18 modelled functions translated from today's source."),
+                    "from the polynomial 0x1021, the integer/character literals and the comparison/logical operators (in source order) of 20 "
+                    "modelled functions, and that the files holding the parsers declare no package-level state (zero-valued or call-initialised "
+                    "variables), all translated from today's source. coq/Proofs/C17History.v refutes two seeded designs on the model: int8 test "
+                    "with an exclusive lower bound (workchain -128 lost through the JSON form) and one CRC register shared by concurrent calls "
+                    "(an interleaving accepts a corrupted string and rejects a valid one)."),
     'assumptions': ["Go's encoding/base64, base32, hex, strconv.ParseInt, fmt %v/%x, strings.Map/TrimSuffix/ToUpper and snksoft/crc XMODEM are "
                     "modelled by hand and tied by the correspondence run only",
                     "encoding/json is modelled for string literals without backslash escapes (escaped input is checked on the implementation only)",
+                    "MsgAddress.UnmarshalJSON is modelled on the raw bytes of the JSON value, without white space inside Anycast(...) (fmt.Sscanf "
+                    "skips it) and without non-ASCII characters in Fift-hex parts (the code truncates runes to bytes)",
+                    "the model is a pure function: that concurrent calls of the Go parsers behave like sequential ones is tied by the concurrency "
+                    "oracle (needs >= 2 CPUs to be meaningful; 16 goroutines, ~5M parser calls per run) and by the translated no-package-state "
+                    "obligation, not by a theorem about the Go memory model",
                     "tongo.ParseAddress is modelled for strings without '=' and with a DNS resolver that always fails; its Bounce field is not "
                     "part of the property and is not compared",
                     "user-friendly and addr_std forms hold an int8 workchain: workchains outside -128..127 are truncated by the code "
@@ -57,8 +77,10 @@ META = {
              "MatchAccountID holds exactly when the shard prefix is a binary prefix of the address, MatchBlockID exactly when one shard "
              "prefix is a prefix of the other, shardChild/shardParent are mutual inverses for every prefix length and agree with "
              "prefix arithmetic, GetParents returns parent / both children / the same shard accordingly; the ADNL base32 text parses back "
-             "to the address. The extracted model is run against the Go implementation on ~26k (quick) / ~330k (thorough) generated "
-             "cases with 0 differences; the CRC table and the literals of the modelled functions are re-translated from the source and "
+             "to the address; the JSON form of the TL-B address parses back to the same addr_std value and account for every int8 "
+             "workchain -128..127. The extracted model is run against the Go implementation on ~39k (quick) / ~358k (thorough) generated "
+             "cases with 0 differences, including a sweep of all 256 int8 workchains through every form and concurrent parsing from 16 "
+             "goroutines whose results must equal the sequential ones; the CRC table and the literals of the modelled functions are re-translated from the source and "
              "re-checked on every run."),
     'design_ref': 'DESIGN.md §6 C17',
     'note': ("Trusted: Coq kernel, extraction (ExtrOcamlBasic), OCaml driver, Go harness; Go's base64/base32/hex/strconv/fmt/json are "
